@@ -22,12 +22,6 @@ Ltac destruct_facts f :=
 
 (* ---- C36-K2: where the two paths order their checks differently --------------------------- *)
 
-(* the per-send path decodes the person channel id AFTER the sender and terminal checks,
-   the batch planner BEFORE them *)
-Definition k2_cond (f : facts) : bool :=
-  is_person (f_type f) && batchable f && negb (f_norm f && f_norm_err f)
-  && negb (f_sender_sys f) && negb (f_device_sys f) && f_decode_err f.
-
 Lemma paths_agree (f : facts) : k2_cond f = false -> decide_batch f = decide_single f.
 Proof. destruct_facts f. unfold k2_cond. tree. Qed.
 
